@@ -829,3 +829,18 @@ func faulty(s *Scenario, log *core.Log) core.Result {
 	res.StateKey = "faulty|" + letters.String() + "|" + strings.Join(kinds, ",")
 	return res
 }
+
+// GenText draws an IGC text (the encoder's output for a small generated track,
+// or a hand-composed record stream) for use as decoder input elsewhere.
+func GenText(r *prng.Rand) string {
+	if r.Chance(0.5) {
+		return strings.Join(genLines(r), "\n") + "\n"
+	}
+	fixes := genTrack(r)
+	if len(fixes) > 12 {
+		fixes = fixes[:12]
+	}
+	var b bytes.Buffer
+	_ = igc.NewEncoder(&b, igc.A(genA(r))).Encode(buildTrack(4, fixes))
+	return b.String()
+}
